@@ -1225,12 +1225,33 @@ func c18AggOverOffset(e parser.Expr) int64 {
 }
 
 // roundingSensitive: the statement grants floating-point rounding. A comparison operator whose operands (as the
-// upstream engine computes them) differ by no more than the tolerance, without being equal, may filter either way.
+// upstream engine computes them) differ by no more than the tolerance, without being equal, may filter either way;
+// the same holds for the jump points of the modulo operator.
 func (r *c18Runner) roundingSensitive(pe parser.Expr, t int64) bool {
 	sens := false
 	parser.Inspect(pe, func(n parser.Node, _ []parser.Node) error {
 		be, ok := n.(*parser.BinaryExpr)
-		if !ok || sens || !be.Op.IsComparisonOperator() {
+		if !ok || sens {
+			return nil
+		}
+		if be.Op == parser.MOD {
+			// x % y jumps where x/y is an integer: a quotient within the tolerance of an integer may fall on either side
+			div := *be
+			div.Op = parser.DIV
+			q := r.ref.instant(div.String(), t)
+			for _, ps := range q.Series {
+				for _, p := range ps {
+					if math.IsNaN(p.V) || math.IsInf(p.V, 0) {
+						continue
+					}
+					if math.Abs(p.V-math.Round(p.V)) <= 1e-9*math.Max(1, math.Abs(p.V)) {
+						sens = true
+					}
+				}
+			}
+			return nil
+		}
+		if !be.Op.IsComparisonOperator() {
 			return nil
 		}
 		sub, add := *be, *be
@@ -1261,7 +1282,7 @@ func (r *c18Runner) roundingSensitive(pe parser.Expr, t int64) bool {
 func (r *c18Runner) diffInstant(pe parser.Expr, t int64, want, got *c18Answer) (string, string) {
 	cls, diff := c18Diff(want, got)
 	if cls != "" && r.roundingSensitive(pe, t) {
-		r.rep.Count("excused_rounding_sensitive_comparison", 1)
+		r.rep.Count("excused_rounding_sensitive_point", 1)
 		return "", ""
 	}
 	return cls, diff
